@@ -458,6 +458,10 @@ func (f *Frame) bindLocals(env *SpecEnv, at *ssa.BasicBlock, st *State) {
 		if phi.Comment != "" {
 			if t, ok := f.vals[phi]; ok {
 				env.vars[phi.Comment] = env.sv(t, phi.Type())
+				if phi.Comment == "rangeint.iter" {
+					// `for i := range n`: the hidden counter (the index about to be processed)
+					env.vars["rangeiter"] = env.sv(t, phi.Type())
+				}
 			}
 		}
 	}
